@@ -58,6 +58,12 @@ def run(chk):
                 beh = "err%d" % rng.choice(NONSUCCESS + ([200] if rng.random() < 0.1 else []))
                 if rng.random() < 0.6:
                     beh += ";m=" + rng.choice(["nope", "bad_input", "é", "a=b"])
+                    if rng.random() < (0.2 if i < 400 else 0.03):
+                        # long messages (error chains, backtraces), with a multi-byte character straddling the offsets a
+                        # careless cap would cut at
+                        off = rng.choice([63, 64, 127, 128, 255, 256, 511, 512, 1023, 1024, 1025, 2048, 4096, 8192, 16384, 65535, 65536, 100000])
+                        ch = rng.choice(["\u00e9", "\u20ac", "\U0001F600", "b"])
+                        beh = beh.rsplit(";m=", 1)[0] + ";m=" + "a" * (off - rng.randrange(0, len(ch.encode()))) + ch * 3
             for _ in range(rng.choice([0, 0, 1, 2])):
                 beh += ";h=%s=%s" % (rng.choice(["a", "x-k", "retry", "status-message", "content-type"]), rng.choice(["1", "v", "zz"]))
             calls.append("%s.%s:%d:%s:%s" % (svc, m, i * 100 + j, hx(text.encode()), beh))
